@@ -430,8 +430,8 @@ func (x *c48bRunner) check(layer string, idx int, p *c48bPolicy, js string, eval
 		}
 		for k, ic := range []*StaticInterceptor{i1, i2} {
 			for _, entry := range []string{"unary", "stream"} {
-				if k == 1 && entry == "stream" {
-					continue
+				if k == 1 && (entry == "stream" || layer == "L_lists") {
+					continue // the second build is compared on the unary path of the R and E layers only
 				}
 				called := false
 				err, pan := c48bCall(func() error {
@@ -672,7 +672,7 @@ func TestVerif_C48_Authz(t *testing.T) {
 	lists := c48bRuleLists(names, menu)
 	edges := c48bEdges()
 
-	r.Rule(P, fmt.Sprintf("SDK JSON policies from a grammar, every accepted policy evaluated on all %d requests (2 methods x 2 header maps x peer/local addresses x 7 TLS identities) through the unary and stream entry points of authz.NewStatic's interceptor, built twice. "+
+	r.Rule(P, fmt.Sprintf("SDK JSON policies from a grammar, every accepted policy evaluated on all %d requests (2 methods x 2 header maps x peer/local addresses x 7 TLS identities) through the unary and stream entry points of authz.NewStatic's interceptor (built twice; the second build's decisions are compared in layers R and E). "+
 		"(R) every rule body = principals list (0..2 over %v) x paths list (0..2 over %v) x at most one header (key k|K, 1..2 values over %v) [pairs %s], once as the only allow rule and once as the only deny rule in front of an allow-everything rule; "+
 		"(L) every policy with 0..2 deny rules and 0..2 allow rules, each rule = name in {a,b} x body from a %d-body menu (ordered, so same-named rules inside one list and across lists are all included); "+
 		"(E) %d hand-listed policies with one missing/invalid/odd element each (names, header keys, unknown fields, malformed JSON). "+
